@@ -2,6 +2,7 @@ package main
 
 import (
 	"fmt"
+	"github.com/akramarenkov/cqos/v2/priority/divider"
 	"math/rand"
 	"sort"
 	"strings"
@@ -186,7 +187,19 @@ func (g *gen) monitorShares(afterFullRound bool) {
 	if !g.k.saturated || s.errSeen {
 		return
 	}
-	_, strategic, _, _, _ := s.stp.Snapshot()
+	// the share is computed here, with the library's divider (C14), for all configured priorities
+	// sorted from highest to lowest and H - not read from the discipline's own bookkeeping
+	_, _, _, prios, _ := s.stp.Snapshot()
+	sorted := append([]uint(nil), prios...)
+	sort.Slice(sorted, func(i, j int) bool { return sorted[i] > sorted[j] })
+	strategic := map[uint]uint{}
+	if len(sorted) > 0 {
+		if s.div == "rate" {
+			divider.Rate(sorted, s.H, strategic)
+		} else {
+			divider.Fair(sorted, s.H, strategic)
+		}
+	}
 	for p, n := range s.inflight {
 		if uint(n) > strategic[p] {
 			s.fail("C05 priority %d holds %d items in flight, its share is %d", p, n, strategic[p])
